@@ -1,6 +1,7 @@
 import Lean.Data.Json
 import Placement.Model.Handlers
 import Placement.Model.Txn
+import Placement.Model.Sync
 /-
   Line-protocol driver of the executable model (unverified glue, exercised by the correspondence
   check): one JSON object per input line, one JSON object per output line.
@@ -35,6 +36,8 @@ def Interner.name (t : Interner) (n : Nat) : String :=
   if n % 2 == 1 then t.odd.getD (n / 2) s!"?{n}" else t.even.getD (n / 2) s!"?{n}"
 
 structure St where
+  stdRcs : List Nat := []
+  stdTraits : List Nat := []
   db : DB Float := {}
   cfg : Config := { incompleteProject := 0, incompleteUser := 0 }
   tbl : Interner := {}
@@ -340,6 +343,7 @@ def handleCore (j : Json) : M Json := do
     let p ← intern (← str cfgj "project")
     let u ← intern (← str cfgj "user")
     modify fun st => { st with
+      stdRcs := rcs, stdTraits := traits,
       db := { rcs := rcs.zipIdx.map (fun (n, i) => (i, n)), traits := traits },
       cfg := { incompleteProject := p, incompleteUser := u } }
     return Json.mkObj [("ok", true)]
@@ -353,6 +357,26 @@ def handleCore (j : Json) : M Json := do
     set { st with db := db' }
     let res := ps'.map (fun p => match p with | .done r => respJson r | .txn _ _ => Json.null)
     return Json.mkObj [("responses", Json.arr res), ("trace", Json.arr trace)]
+  | .ok "sync" =>
+    modify fun st => { st with db := sync st.stdRcs st.stdTraits st.db }
+    return Json.mkObj [("ok", true)]
+  | .ok "drop_std" =>
+    let rcs ← (← arr j "rcs").toList.mapM (fun t => match t with | .str s => intern s | _ => throw "rc")
+    let ts ← (← arr j "traits").toList.mapM (fun t => match t with | .str s => intern s | _ => throw "trait")
+    modify fun st => { st with db := dropStd rcs ts st.db }
+    return Json.mkObj [("ok", true)]
+  | .ok "std_tables" =>
+    let st ← get
+    return Json.mkObj [
+      ("rcs", Json.arr ((st.db.rcs.filter (·.1 < 10000)).map (fun p => Json.arr #[st.tbl.name p.2, p.1])).toArray),
+      ("traits", Json.arr ((st.db.traits.filter (fun t => !isCustom t)).map (fun t => Json.str (st.tbl.name t))).toArray)]
+  | .ok "prefixw" =>
+    let op ← parseOp (← fld j "op")
+    let n ← nat j "j"
+    let st ← get
+    let (db', p) := Prog.runWrites 500 n (prog st.cfg op) st.db
+    set { st with db := db' }
+    return Json.mkObj [("done", match p with | .done r => respJson r | .txn _ _ => Json.null)]
   | .ok "seqprog" =>
     let op ← parseOp (← fld j "op")
     let st ← get
